@@ -24,17 +24,21 @@ def run(ctx):
     cfg = e1.standard_configs(ctx)
     e1.sweep(ctx, E.depth1_programs(include_fxp=True), cfg, "pv.checks.c01.oracle", modes=MODES)
     # depth 2 on the complete interval D(2) (D(3) in the thorough tier)
-    from ..recorder import BN128, BLS12_381
+    from ..recorder import BN128, BLS12_381, REAL_FIELDS
+    e1.sweep(ctx, E.huge_programs(), [(16, pp, E.huge_lattice(pp)) for pp in REAL_FIELDS.values()], "pv.checks.c01.oracle", modes=MODES)
     d2 = X.depth2_family(ctx)
     cfg2 = [(2, BN128, E.D(2))] + ([(3, BLS12_381, E.D(2))] if ctx.thorough else [])
     e1.sweep(ctx, d2, cfg2, "pv.checks.c01.oracle", modes=MODES if ctx.thorough else ("plain", "g0"))
+    e1.bfs_sweep(ctx, {"unsat", "unsat-left-by-aborted-call"}, ctx.thorough)
     e1.dedupe_violations(ctx)
     ctx.cov["traces_validated_against_impl"] = ctx.cov["executions"]
     ctx.cov["exhaustive"] = True
     ctx.cov["rule"] = ("every depth-1 program (operator x operand kinds) on every input vector of the "
                        "complete interval D(n)=[-(2^n+1),2^n+1] (n=2,3) and the boundary lattice (n>=4), "
                        "in modes plain / true guard / false guard; depth-2 compositions on D(2); "
-                       "oracle after every API call: all constraints emitted by that call hold mod p")
+                       "oracle after every API call: all constraints emitted by that call hold mod p; "
+                       "plus breadth-first search over operation SEQUENCES to depth 3 (4 thorough) with state merging, mode "
+                       "switches, guarded regions and aborted calls (pv/bfs.py)")
     ctx.assumptions += ["recorder backend represents what a proof backend receives (validated against "
                         "pysnark.snarkjsbackend in C06/C10)", "fields: bn128 + one of bls12-381/curve25519 "
                         "(quick), all three (thorough)"]
